@@ -591,7 +591,7 @@ func cmdSelftest(args []string) int {
 
 func selftest(id string, perEntry int, verbose bool) (agree, total int) {
 	h, err := parseHarness(id, filepath.Join(verifDir(), "harness", id))
-	if err != nil || !h.Native {
+	if err != nil || (!h.Native && os.Getenv("VX_FORCE_NATIVE") == "") {
 		return 0, 0
 	}
 	cfg := &Config{MaxSteps: 200_000_000, Unwind: 256, knownIDs: map[string]bool{}, skipInitPkgs: map[string]bool{}}
@@ -654,6 +654,10 @@ func selftest(id string, perEntry int, verbose bool) (agree, total int) {
 				agree++
 			} else if verbose {
 				fmt.Printf("  %s #%d DISAGREE: interpreter notes=[%s] viol=%v ; native notes=[%s] viol=%v\n", e.Name, i, engNotes, engViol, natNotes, natViol)
+				if os.Getenv("VX_SELFTEST_DEBUG") != "" {
+					fmt.Println(lastLines(out, 25))
+					fmt.Println("model:", m)
+				}
 			}
 		}
 	}
